@@ -97,7 +97,9 @@ theorem view_removeTimer (s : St) (k : Nat) :
       { view s with poisoned := (view s).poisoned || pn,
                     rel := stopObs pn (tid s) "deadlines.remove: invalid key" ++ (view s).rel } := by
   unfold removeTimer; split
-  · exact ⟨false, by simp [view, stopObs]⟩
+  · simp only; split
+    · exact ⟨false, by rw [view_wakeDispatch]; simp [view, stopObs]⟩
+    · exact ⟨false, by simp [view, stopObs]⟩
   · exact ⟨true, by rw [view_emit_rel _ _ rfl]; simp [view, stopObs, tid]⟩
 
 /-! ### queues -/
@@ -246,7 +248,9 @@ theorem completeRequest_inflight (s : St) (id : Nat) (o : Outcome) :
   | some e0 =>
     simp only [osSend_inflight]
     unfold removeTimer
-    split <;> (intro e he; simp at he; exact he.2)
+    split
+    · simp only; split <;> (intro e he; simp at he; exact he.2)
+    · intro e he; simp at he; exact he.2
 
 theorem cancelRequest_some {s : St} {id : Nat} {e : Entry} {s' : St} (h : cancelRequest s id = (s', some e)) :
     findEntry s id = some e ∧ ∃ pn, view s' =
@@ -273,15 +277,22 @@ theorem insertRequest_cases (s : St) (now : Nat) (r : DReq) :
       ((∃ site, s'.poisoned = true ∧ view s' = { view s with poisoned := true, rel := .panic (tid s) site :: (view s).rel }) ∨
        (findEntry s r.id = none ∧ s'.poisoned = s.poisoned ∧ ∃ key, view s' =
           { view s with inflight := (view s).inflight ++ [{ id := r.id, cid := r.cid, ctx := r.ctx, timerKey := key }] })) := by
+  -- (`split` on the function's own `match`, not `cases` on a generalised result: the kernel must not be made to
+  -- evaluate `DelayQ.insert … (clampTimeout …)`)
   unfold insertRequest
-  cases hf : findEntry s r.id with
-  | some e => exact ⟨_, rfl, Or.inl ⟨_, rfl, by rw [view_emit_rel _ _ rfl]; rfl⟩⟩
-  | none =>
-    simp only [Option.isSome_none, Bool.false_eq_true, ↓reduceIte]
-    rcases hq : s.timers.insert now (r.ctx.deadline - now) r.id with ⟨q, res, w⟩
-    cases res with
-    | panic => exact ⟨_, rfl, Or.inl ⟨_, rfl, by rw [view_emit_rel _ _ rfl]; rfl⟩⟩
-    | ok key => exact ⟨_, rfl, Or.inr ⟨trivial, rfl, key, rfl⟩⟩
+  split
+  · exact ⟨_, rfl, Or.inl ⟨_, rfl, by rw [view_emit_rel _ _ rfl]; rfl⟩⟩
+  · rename_i hf
+    have hf' : findEntry s r.id = none := by simpa using hf
+    split
+    · exact ⟨_, rfl, Or.inl ⟨_, rfl, by rw [view_emit_rel _ _ rfl]; rfl⟩⟩
+    · rename_i q key w hq
+      cases w with
+      | false => exact ⟨_, rfl, Or.inr ⟨hf', rfl, key, rfl⟩⟩
+      | true =>
+        refine ⟨_, rfl, Or.inr ⟨hf', ?_, key, ?_⟩⟩
+        · simp
+        · simp only [↓reduceIte]; rw [view_wakeDispatch]; rfl
 
 theorem osIsClosed_view {s : St} {cid : Nat} (h : osIsClosed s cid = false) :
     ∃ c, (view s).get cid = some c ∧ c.rxClosed = false := by
